@@ -45,7 +45,39 @@ def cases(tier, seed):
         # the same load case after a tangent stiffness was evaluated on the object (as every non-linear run does)
         if load in ('uTM', 'thetaT', 'all') and model in ('clpt_donnell_bc1', 'clpt_donnell_bc4') and (pdC or pdT):
             out.append(dict(kind='load', model=model, alpha=alpha, pdC=pdC, pdT=pdT, load=load, inc=inc, hist='after_kT', seed=seed))
+    # circumferential series long enough for the ring loads' quadrature to matter (the class default is n2 = 45)
+    for model, load in itertools.product(['clpt_donnell_bc3', 'clpt_donnell_bc4'], ['T', 'Fc', 'forces']):
+        out.append(dict(kind='load', model=model, alpha=0., pdC=0, pdT=0, load=load, inc=1.0, n2=38, m2=1, seed=seed))
+    # axial line load with higher harmonics, given at definition or edited in place after an evaluation
+    for model, alpha in itertools.product(['clpt_donnell_bc2', 'clpt_donnell_bc4'], [0., 25.]):
+        out.append(dict(kind='nxx_inplace', model=model, alpha=alpha, seed=seed))
     return out
+
+
+def check_nxx_inplace(case):
+    fails = []
+
+    def mk():
+        return rs.shell_of(dict(model=case['model'], alphadeg=case['alpha'], m1=2, m2=2, n2=3, s=40, pdC=False, pdT=True, Fc=-3.0e3))
+    a = mk()
+    f0 = np.asarray(a.calc_fext(silent=True), dtype=float)
+    a.Nxxtop[3] = 12.5           # in-place edit of the line load the package derived from Fc
+    a.Nxxtop[4] = -7.0
+    fa = np.asarray(a.calc_fext(silent=True), dtype=float)
+    b = mk()
+    b._rebuild()
+    nx = b.Nxxtop.copy()
+    nx[3], nx[4] = 12.5, -7.0
+    c = mk()
+    c.Nxxtop = nx                 # the same line load given at definition
+    fc = np.asarray(c.calc_fext(silent=True), dtype=float)
+    sc = np.abs(fc).max() + 1e-300
+    if np.abs(fa - fc).max() > 1e-12 * sc:
+        fails.append(fail('force vector after an in-place edit of the axial line load differs from that of a shell defined with this line load',
+                          sig=None, case=case, rel=float(np.abs(fa - fc).max() / sc)))
+    if np.abs(fa - f0).max() == 0:
+        fails.append(fail('harmonics of the axial line load do not enter the force vector (vacuous case)', sig=None, case=case))
+    return dict(fails=fails, execs=3, transitions=3, nontrivial=1)
 
 
 def check_geom(case):
@@ -126,7 +158,7 @@ def check_partition(case):
 
 
 def build_load(case):
-    cfg = dict(model=case['model'], alphadeg=case['alpha'], m1=2, m2=2, n2=2, s=40, pdC=bool(case['pdC']), pdT=bool(case['pdT']))
+    cfg = dict(model=case['model'], alphadeg=case['alpha'], m1=2, m2=case.get('m2', 2), n2=case.get('n2', 2), s=40, pdC=bool(case['pdC']), pdT=bool(case['pdT']))
     load = case['load']
     forces = []
     if load in ('forces', 'all'):
@@ -250,4 +282,4 @@ def check_load(case):
 
 
 def check_case(case):
-    return dict(geom=check_geom, partition=check_partition, load=check_load)[case['kind']](case)
+    return dict(geom=check_geom, partition=check_partition, load=check_load, nxx_inplace=check_nxx_inplace)[case['kind']](case)
